@@ -348,6 +348,53 @@ type hnode struct {
 	mu       sync.Mutex
 	itemIdx  map[int]int // item token -> index in the batch
 	attempts map[int]int // item token -> exec calls so far in this run of the node
+	// retry settings of the node, so that a gated run knows when an item is in its retry wait: the
+	// controller must not take "everything is blocked" for a quiescent point while a timer of
+	// the library is about to wake an item up
+	retryN, waitMs int
+	waitHolds      map[int]*sync.Once // item token -> release of the hold taken after its failed attempt
+	tries          map[int]int        // item token -> exec calls so far (kept for every node)
+}
+
+// enterExec: the item's next attempt has begun - its retry wait (if the harness was holding the
+// controller for it) is over
+func (h *hnode) enterExec(key int) int {
+	h.mu.Lock()
+	defer h.mu.Unlock()
+	if h.tries == nil {
+		h.tries = map[int]int{}
+	}
+	att := h.tries[key]
+	h.tries[key] = att + 1
+	if o := h.waitHolds[key]; o != nil {
+		o.Do(func() { atomic.AddInt32(&gateHold, -1) })
+		delete(h.waitHolds, key)
+	}
+	return att
+}
+
+// leaveExecFailed: attempt number att of the item failed; if the library is going to wait and retry,
+// hold the gating controller until the next attempt begins (or, in case it never does, for the
+// length of the wait and a second)
+func (h *hnode) leaveExecFailed(key, att int) {
+	if h.rt.gate == nil || h.waitMs <= 0 || att+1 >= h.retryN || h.rt.w.ctx.Err() != nil {
+		return
+	}
+	h.mu.Lock()
+	defer h.mu.Unlock()
+	if h.waitHolds == nil {
+		h.waitHolds = map[int]*sync.Once{}
+	}
+	if h.waitHolds[key] != nil {
+		return
+	}
+	o := &sync.Once{}
+	h.waitHolds[key] = o
+	atomic.AddInt32(&gateHold, 1)
+	release := func() { o.Do(func() { atomic.AddInt32(&gateHold, -1) }) }
+	time.AfterFunc(time.Duration(h.waitMs)*time.Millisecond+time.Second, release)
+	// a cancelled context ends the wait without a further attempt
+	context.AfterFunc(h.rt.w.ctx, release)
 }
 
 // noteItems records the item order of a batch from the value its prep returns.
@@ -390,6 +437,7 @@ func (h *hnode) prep(shared *flyt.SharedStore) Resp {
 func (h *hnode) exec(arg any) Resp {
 	t0 := h.rt.now()
 	a := h.rt.w.encode(arg)
+	try := h.enterExec(itemKey(a))
 	if h.gated && h.rt.gate != nil {
 		key := itemKey(a)
 		h.mu.Lock()
@@ -408,6 +456,7 @@ func (h *hnode) exec(arg any) Resp {
 	}
 	if r.K == "err" {
 		h.rt.afterFailedAttempt(h.id, itemKey(a))
+		h.leaveExecFailed(itemKey(a), try)
 	}
 	h.rt.setEnd(idx, h.rt.now())
 	return r
@@ -528,6 +577,7 @@ func buildNode(d NodeDef, rt *scriptRT) (flyt.Node, error) {
 	h := &hnode{id: d.ID, rt: rt, gated: d.Kind == "batch" && d.Conc > 0}
 	var baseOpts []flyt.NodeOption
 	if d.Retry != nil {
+		h.retryN, h.waitMs = d.Retry[0], d.Retry[1]
 		baseOpts = append(baseOpts, flyt.WithMaxRetries(d.Retry[0]), flyt.WithWait(waitDur(d.Retry[1])))
 	}
 	switch d.Kind {
